@@ -150,12 +150,16 @@ class rrulebase(object):
         if self._cache_complete:
             return self._cache[item]
         elif isinstance(item, slice):
-            if item.step and item.step < 0:
+            if ((item.step and item.step < 0) or
+                    (item.start is not None and item.start < 0) or
+                    (item.stop is not None and item.stop < 0)):
+                # Negative bounds count from the end of the recurrence
                 return list(iter(self))[item]
             else:
                 return list(itertools.islice(self,
                                              item.start or 0,
-                                             item.stop or sys.maxsize,
+                                             (sys.maxsize if item.stop is None
+                                              else item.stop),
                                              item.step or 1))
         elif item >= 0:
             gen = iter(self)
